@@ -8,6 +8,7 @@ M = [
  ("m-C02-barycentric-index","C02","src/geom3/curve3.rs","            sp.barycentric_coordinates()[1],","            sp.barycentric_coordinates()[0],","Curve3 closest-point fraction taken from the wrong barycentric coordinate"),
  ("m-C03-normal-translated","C03","src/geom3/plane3.rs","        let pos = self.normal.into_inner() * self.d;\n        let repr = SurfacePoint3::new(pos.into(), self.normal);\n\n        let new_repr = repr.transformed(iso);","        let pos = self.normal.into_inner() * self.d;\n        let repr = SurfacePoint3::new(pos.into(), self.normal);\n\n        let new_repr = SurfacePoint3::new(repr.point, iso * repr.normal);","Plane3::transform_by rotates the normal but keeps the offset"),
  ("m-C04-control-inclusive","C04","src/geom2/curve2.rs","        if lower < control && control < upper {","        if lower < control || control < upper {","between_lengths_by_control picks the inner piece for any control"),
+ ("m-C04-loop-exit-strict","C04","src/geom2/curve2.rs","                } else if working.length_along() <= end.length_along() && next_index > end.index {","                } else if working.length_along() < end.length_along() && next_index > end.index {","portion loop never reaches its exit when the start lies exactly on a vertex of the last edge: unbounded walk"),
  ("m-C04-last-index","C04","src/geom2/curve2.rs","                if next_index > last_index {","                if next_index >= last_index {","between_lengths wraps one vertex early"),
  ("m-C05-fill-gaps-short","C05","src/common/points.rs","            while d / (n + 1) as f64 > max_dist {","            while d / (n + 2) as f64 > max_dist {","fill_gaps inserts one point too few"),
  ("m-C05-padding","C05","src/geom3/curve3.rs","    let padding = (curve.length() - positions.last().unwrap()) / 2.0;","    let padding = (curve.length() - positions.last().unwrap()) / 3.0;","Curve3 fixed-spacing resample is not centred"),
